@@ -20,6 +20,7 @@ package hal
 // bytes; the harness checks that they saw the same sequence of events.
 
 import (
+	"strings"
 	"bytes"
 	"fmt"
 	"image/color"
@@ -48,6 +49,9 @@ type c16Chunk struct {
 	// the end, 3 leading newline only, 4 newline after the token only
 	NL  int  `json:"nl"`
 	Str bool `json:"str,omitempty"` // logged as a string (byte at a time) instead of []byte (one Write)
+	// Hi: the filler is not plain letters: bytes above 0x7f (UTF-8 sequences and lone bytes) are
+	// mixed in - log text is bytes, whatever they spell
+	Hi bool `json:"hi,omitempty"`
 }
 
 type c16Drv struct {
@@ -108,6 +112,10 @@ func c16MakeTok(id int, ch c16Chunk) c16Tok {
 	tok := []byte(fmt.Sprintf("{k%03d}", id))
 	pad := make([]byte, 0, ch.Pad)
 	for j := 0; j < ch.Pad; j++ {
+		if ch.Hi && j%3 != 0 {
+			pad = append(pad, []byte{0xc3, 0xb6, 0xff, 0x80, 0xe2, 0x9c, 0x93, 0xfe}[(id+j)%8])
+			continue
+		}
 		pad = append(pad, byte('a'+(id*7+j)%26))
 	}
 	var d []byte
@@ -574,6 +582,16 @@ func c16hBody(c c16hCase, info *c16hInfo) *vlib.Failure {
 		}
 	}
 	label(true, "hal layer")
+	hiText := false
+	for _, d := range c.Drivers {
+		for _, ch := range append(append([]c16Chunk(nil), d.Probe...), d.Init...) {
+			hiText = hiText || (ch.Hi && ch.Pad > 1)
+		}
+	}
+	for _, ch := range append(append([]c16Chunk(nil), c.Pre...), c.Post...) {
+		hiText = hiText || (ch.Hi && ch.Pad > 1)
+	}
+	label(hiText, "log-text-with-bytes-above-0x7f")
 	for _, d := range c.Drivers {
 		if d.Kind == "tty" && d.Eager && !c.RealVT && d.Outcome == "ok" {
 			label(true, "terminal-that-reports-active-from-the-start")
@@ -784,6 +802,15 @@ func c16hBody(c c16hCase, info *c16hInfo) *vlib.Failure {
 			return nil
 		}
 	}
+	// every line piece of every chunk arrives on the lossless log byte for byte (line prefixes may be
+	// put in front of a piece, nothing may change inside one)
+	for k, e := range ref.emitted {
+		for _, piece := range bytes.Split(e.tok.data, []byte{'\n'}) {
+			if len(piece) > 0 && !bytes.Contains(full, piece) {
+				return vlib.Failf("lossless execution (a sink is installed before the first byte): the bytes %q of chunk %d (token %s) do not appear on the log unchanged: %s", piece, k, e.tok.text, c16Clip(full))
+			}
+		}
+	}
 	for _, b := range s.base {
 		if b.initCalls == 0 || b.initOK {
 			continue
@@ -915,9 +942,31 @@ func c16hBody(c c16hCase, info *c16hInfo) *vlib.Failure {
 	}
 	label(!sorted, "registered out of detection order")
 	label(ties, "equal detection orders")
+	// a console that takes a logo and a font gets the logo first: the shipped framebuffer console
+	// derives its text grid from the logo's height when the font is set ("SetLogo ... must be
+	// invoked before SetFont", vesa_fb.go) - a font handed over first leaves a grid that reaches
+	// below the framebuffer
+	for i, cs := range s.cons {
+		if cs == nil {
+			continue
+		}
+		fontAt, logoAt := -1, -1
+		for k, what := range cs.setters {
+			if what == "font" && fontAt < 0 {
+				fontAt = k
+			}
+			if what == "logo" {
+				logoAt = k
+			}
+		}
+		if fontAt >= 0 && logoAt > fontAt {
+			return vlib.Failf("%s (takes a logo and a font; boot command line %q) was handed its font before its logo (calls: %v): the console documents that the logo must be set first", s.base[i].describe(), c.Cmd, cs.setters)
+		}
+	}
 	if linked {
 		cs := s.cons[firstCons]
 		label(len(cs.setters) > 0, "active console with font/logo setter")
+		label(len(cs.setters) > 1 && strings.Contains(c.Cmd, "consoleFont=terminus"), "console with logo and font, font named on the boot command line")
 		last := false
 		for _, e := range s.emitted {
 			if e.pre && len(e.tok.data) > 0 && e.tok.data[len(e.tok.data)-1] != '\n' {
@@ -968,6 +1017,7 @@ func c16GenChunk(bigPct int) func(*rapid.T) c16Chunk {
 		}
 		ch.NL = rapid.SampledFrom([]int{1, 1, 1, 1, 0, 0, 2, 3, 4}).Draw(t, "nl")
 		ch.Str = rapid.Bool().Draw(t, "str")
+		ch.Hi = rapid.IntRange(0, 3).Draw(t, "hi") == 0
 		return ch
 	}
 }
